@@ -30,3 +30,29 @@ PROPS["C19"] = dict(
     exhaustive_scope={"quick": "bool expressions with <=3 operator nodes x 8 assignments; let forms with <=1 node per slot; float expressions with <=2 operator nodes (47 915) x the assignments of a 7x7 grid that keep the arithmetic exact",
                       "thorough": "bool expressions with <=4 operator nodes (12 886 025) x 8 assignments; let and if forms with <=1 node per slot; float expressions with <=3 operator nodes (6 874 392) x the exact assignments of a 7x7 grid"},
 )
+
+
+PROG_ASSUMPTIONS = [
+    "the reference interpreter (harness/ref) is an independent second implementation written from the method descriptions, the property texts and the expectations of the repository's tests; edges they leave open are excluded (counted as skipped_*), not guessed",
+    "generated recursion always carries a decreasing counter; float products that are rounded are skipped (regrouping may change the last bit)",
+]
+
+PROPS["C01"] = dict(
+    pkg="c01",
+    rule=("programs are drawn from a typed grammar generator (harness/lang): literals, argument reads, unary/binary operators, let, func "
+          "(recursion with a decreasing counter), closures with 1..3 parameters, currying, closures returned from functions and stored in "
+          "maps, if, switch, try/catch (value and closure form, thrown tokens), list/map literals, index, member access, method calls, "
+          "static functions; binding constructs are placed in every let-position (call/method/static arguments, list items, map values, "
+          "branches); local names are reused across sibling scopes, shadow outer names and static function names; ~20% of the programs "
+          "may contain failing or ill-typed sub-terms. Each program is rendered to text, evaluated on value.New() with the default "
+          "optimizer and with SetOptimizer(nil), and compared deeply with the reference interpreter's outcome for 1..3 generated "
+          "arguments. A case is non-trivial if the reference run read at least one let/func/parameter binding and the program mentions "
+          "an argument; distinct = program text + arguments."),
+    assumptions=PROG_ASSUMPTIONS,
+    jobs=[
+        dict(name="c01", run="^TestPropC01$", kind="rapid", shards=16,
+             checks={"quick": 160000, "thorough": 4000000}, guard={"quick": 900, "thorough": 7200}),
+    ],
+    min_class_fraction={"binding_in_later_call_arg": 0.01, "binding_in_method_arg": 0.01, "binding_in_first_static_arg": 0.005,
+                        "closure_depth_2": 0.01, "recursion": 0.01, "currying": 0.01, "closure_in_map_call": 0.005},
+)
